@@ -264,7 +264,10 @@ def render_reader(last, reads):
 
 
 def read_src(last, r):
-  return render_reader(last, [r])[0].split("\n", 1)[1].strip().replace("\n", " ")
+  """The reader's expression for one read (for messages)."""
+  body = render_reader(last, [r])[0].strip().split("\n")
+  body = [ln for ln in body if not ln.startswith("import ")]
+  return body[0][len("r1 = "):] if len(body) == 1 else " ".join(ln.strip() for ln in body)
 
 
 _QBASES = {"list": "list", "set": "set", "frozenset": "frozenset", "dict": "dict",
@@ -532,7 +535,7 @@ def main():
         jobs.append(("prog", "ProgGen", c01.gen_cfg(ns, dpt),
                      dict(seed=sl * 11 + 100 + j, simulate="num=%d" % num, depth=ns + 3), num))
       jobs.append(("dag", "StubWorld", world_cfg("dag", **WIDE_DAG),
-                   dict(seed=7000 + sl, simulate="num=%d" % (40 if thorough else 12), depth=14), 8))
+                   dict(seed=7000 + sl, simulate="num=%d" % (25 if thorough else 12), depth=14), 8))
     if thorough:
       jobs.append(("dag", "StubWorld", world_cfg("dag", MinImpL=1, UsesInner='{"var", "meth"}',
                                                  UsesLast='{"var", "fn", "meth"}'), {}, 900))
